@@ -88,6 +88,9 @@ void UKFCorrection::correctStep(const GaussianMixture& pred_state, GaussianMixtu
     /* Pick the correct measurement model. */
     MeasurementModel& model = getMeasurementModel();
 
+    /* No likelihood is available unless this correction succeeds. */
+    innovations_.resize(0, 0);
+
     /* Get the current measurement if available. */
     bool valid_measurement;
     Data measurement;
